@@ -742,4 +742,147 @@ theorem suf_run {s0 s : CVol} {ext : List Rec} {exta : List Nat} {suf : List IEn
     obtain ⟨e1, e2, e3, h⟩ := suf_step hs t op
     exact ih h
 
+
+/-! ## makeupDiff -/
+
+/-- what `makeupDiff` appended, per key (`L`, `A` = the final .dat records / AppendAtNs) -/
+def MkOK (s2 : CVol) (suf : List IEnt) (order : List Nat) (L : List Rec) (A : List Nat) (ments : List IEnt) : Prop :=
+  (∀ e ∈ ments, e.key ∈ order ∧ (lastFor suf e.key).isSome = true) ∧
+  ∀ k, k ∈ order → ∀ e, lastFor suf k = some e →
+    if validEnt e = true then
+      ∃ j r, lastFor ments k = some ⟨k, j, e.size⟩ ∧ 1 ≤ j ∧ recAt s2.v.log e.off = some r ∧ L[j - 1]? = some r ∧
+        A[j - 1]? = some (atOf s2.ats e.off)
+    else ∃ sz, lastFor ments k = some ⟨k, 0, sz⟩
+
+theorem makeupOne_some (s2 : CVol) (suf : List IEnt) (t : Nat) (L : List Rec) (A : List Nat) (X : List IEnt) (k0 : Nat)
+    {e0 : IEnt} (h0 : lastFor suf k0 = some e0)
+    (hrec : validEnt e0 = true → ∃ r, recAt s2.v.log e0.off = some r) :
+    ∃ r a ent, makeupOne s2 suf t (L, A, X) k0 = some (L ++ [r], A ++ [a], X ++ [ent]) ∧ ent.key = k0 ∧
+      (if validEnt e0 = true then ent = ⟨k0, L.length + 1, e0.size⟩ ∧ recAt s2.v.log e0.off = some r ∧ a = atOf s2.ats e0.off
+       else ent.off = 0) := by
+  unfold makeupOne
+  simp only [h0]
+  by_cases hv : validEnt e0 = true
+  · obtain ⟨r, hr⟩ := hrec hv
+    simp only [hv, if_true, hr]
+    exact ⟨r, _, _, rfl, rfl, rfl, rfl, rfl⟩
+  · simp only [hv]
+    exact ⟨_, _, _, rfl, rfl, rfl⟩
+
+theorem makeupFold_char (s2 : CVol) (suf : List IEnt) (t : Nat)
+    (hrec : ∀ k e, lastFor suf k = some e → validEnt e = true → ∃ r, recAt s2.v.log e.off = some r)
+    (order : List Nat) (L0 : List Rec) (A0 : List Nat) (X0 : List IEnt) (hlen : L0.length = A0.length) :
+    ∃ mrecs mats ments, makeupFold s2 suf t (some (L0, A0, X0)) order = some (L0 ++ mrecs, A0 ++ mats, X0 ++ ments) ∧
+      mrecs.length = mats.length ∧ MkOK s2 suf order (L0 ++ mrecs) (A0 ++ mats) ments := by
+  induction order generalizing L0 A0 X0 with
+  | nil =>
+    refine ⟨[], [], [], by simp [makeupFold], rfl, ?_, ?_⟩
+    · intro e he; cases he
+    · intro k hk; cases hk
+  | cons k0 rest ih =>
+    unfold makeupFold
+    simp only [List.foldl_cons, Option.bind_some]
+    cases h0 : lastFor suf k0 with
+    | none =>
+      have : makeupOne s2 suf t (L0, A0, X0) k0 = some (L0, A0, X0) := by simp [makeupOne, h0]
+      rw [this]
+      obtain ⟨mrecs, mats, ments, hf, hl, hm1, hm2⟩ := ih L0 A0 X0 hlen
+      refine ⟨mrecs, mats, ments, hf, hl, ?_, ?_⟩
+      · intro e he; exact ⟨List.mem_cons_of_mem _ (hm1 e he).1, (hm1 e he).2⟩
+      · intro k hk e he
+        rcases List.mem_cons.1 hk with hk | hk
+        · subst hk; rw [h0] at he; cases he
+        · exact hm2 k hk e he
+    | some e0 =>
+      obtain ⟨r, a, ent, hone, hkey, hent⟩ := makeupOne_some s2 suf t L0 A0 X0 k0 h0 (hrec k0 e0 h0)
+      rw [hone]
+      obtain ⟨mrecs, mats, ments, hf, hl, hm1, hm2⟩ := ih (L0 ++ [r]) (A0 ++ [a]) (X0 ++ [ent]) (by simp [hlen])
+      refine ⟨r :: mrecs, a :: mats, ent :: ments, by simpa [makeupFold] using hf, by simp [hl], ?_, ?_⟩
+      · intro e he
+        rcases List.mem_cons.1 he with he | he
+        · subst he; rw [hkey]; exact ⟨List.mem_cons_self, by simp [h0]⟩
+        · exact ⟨List.mem_cons_of_mem _ (hm1 e he).1, (hm1 e he).2⟩
+      · intro k hk e he
+        have hL : L0 ++ r :: mrecs = L0 ++ [r] ++ mrecs := by simp
+        have hA : A0 ++ a :: mats = A0 ++ [a] ++ mats := by simp
+        by_cases hkr : k ∈ rest
+        · have := hm2 k hkr e he
+          rw [hL, hA, lastFor_cons]
+          by_cases hv : validEnt e = true
+          · simp only [hv, if_true] at this ⊢
+            obtain ⟨j, r', h1, h2⟩ := this
+            exact ⟨j, r', by rw [h1, Option.some_or], h2⟩
+          · simp only [hv] at this ⊢
+            obtain ⟨sz, h1⟩ := this
+            exact ⟨sz, by rw [h1, Option.some_or]⟩
+        · have hk0 : k = k0 := by
+            rcases List.mem_cons.1 hk with h | h
+            · exact h
+            · exact absurd h hkr
+          subst hk0
+          rw [h0] at he; cases he
+          have hnone : lastFor ments k = none :=
+            lastFor_none_of_not_mem (fun e he hek => hkr (hek ▸ (hm1 e he).1))
+          rw [lastFor_cons, hnone]
+          simp only [hkey, if_true, Option.none_or]
+          by_cases hv : validEnt e0 = true
+          · simp only [hv, if_true] at hent ⊢
+            obtain ⟨hent1, hr, ha⟩ := hent
+            refine ⟨L0.length + 1, r, by rw [hent1], by omega, hr, ?_, ?_⟩
+            · simp
+            · simp [hlen, ha]
+          · simp only [hv] at hent ⊢
+            refine ⟨ent.size, ?_⟩
+            obtain ⟨ek, eo, es⟩ := ent
+            simp only at hkey hent
+            rw [hkey, hent]
+
+
+theorem lastFor_none_mem {l : List IEnt} {k : Nat} (h : lastFor l k = none) : ∀ e ∈ l, e.key ≠ k := by
+  induction l with
+  | nil => intro e he; cases he
+  | cons x xs ih =>
+    rw [lastFor_cons] at h
+    cases hx : lastFor xs k with
+    | some e' => rw [hx] at h; simp at h
+    | none =>
+      rw [hx] at h
+      simp only [Option.none_or] at h
+      intro e he
+      rcases List.mem_cons.1 he with he | he
+      · subst he; intro hk; simp [hk] at h
+      · exact ih hx e he
+
+theorem view_congr {s s' : CVol} (h1 : s.v.idx = s'.v.idx) (h2 : s.v.log = s'.v.log) (h3 : s.ats = s'.ats) (t k : Nat) :
+    view s t k = view s' t k := by
+  simp [view, readT, readStep, h1, h2, h3]
+
+/-- cutting the .dat behind record `n` can only make blobs unreadable -/
+theorem view_cut (s s' : CVol) (n : Nat) (h1 : s'.v.idx = s.v.idx) (h2 : s'.v.log = s.v.log.take n) (h3 : s'.ats = s.ats.take n)
+    (t k : Nat) : view s' t k = view s t k ∨ view s' t k = none := by
+  cases hi : s.v.idx k with
+  | none => left; rw [view_none_idx t hi, view_none_idx t (h1 ▸ hi)]
+  | some e =>
+    by_cases h0 : e.off = 0
+    · left; simp [view, readT, readStep, h1, hi, h0]
+    · by_cases hle : e.off ≤ n
+      · left
+        have hr : recAt s'.v.log e.off = recAt s.v.log e.off := by
+          rw [h2, recAt_eq _ h0, recAt_eq _ h0, List.getElem?_take]; simp; intro h; omega
+        have ha : atOf s'.ats e.off = atOf s.ats e.off := by
+          unfold atOf
+          rw [h3, List.getD_eq_getElem?_getD, List.getD_eq_getElem?_getD, List.getElem?_take]
+          have : e.off - 1 < n := by omega
+          simp [this]
+        simp [view, readT, readStep, h1, hi, h0, hr, ha]
+      · have hr : recAt s'.v.log e.off = none := by
+          rw [h2, recAt_eq _ h0, List.getElem?_take]
+          have : ¬ e.off - 1 < n := by omega
+          simp [this]
+        by_cases hs : e.size < 0
+        · right; exact view_neg t (h1 ▸ hi) hs
+        · by_cases hz : e.size = 0
+          · left; simp [view, readT, readStep, h1, hi, h0, hz]
+          · right; simp [view, readT, readStep, h1, hi, h0, hs, hz, hr]
+
 end SwV.Lemmas.C04
